@@ -118,7 +118,7 @@ func verif_harness_C20_observe() {
 	if res.Error == "" {
 		verif_assert(n == 0, "C20.no-failure-without-error")
 	} else {
-		verif_assert(n == 1, "C20.failure-touched-once")
+		verif_assert(n == 1, "C20.failure-counter-incremented-by-one")
 		if n == 1 {
 			verif_assert(base(fail, 1) && fail.labels[3] == res.Error, "C20.failure-labels")
 			one := (fail.incs == 1 && len(fail.adds) == 0) || (fail.incs == 0 && len(fail.adds) == 1 && fail.adds[0] == 1)
@@ -257,4 +257,49 @@ func verif_harness_C20_register() {
 		verif_assert(exported[pm.requestLatencyHistogram] && exported[pm.requestBytesInCounter] && exported[pm.requestBytesOutCounter] && exported[pm.requestFailCounter],
 			"C20.register.success-means-all-four-collectors-are-exported")
 	}
+}
+
+type verifNopCounter struct{ prometheus.Counter }
+
+func (verifNopCounter) Add(float64) {}
+func (verifNopCounter) Inc()        {}
+
+type verifNopObserver struct{}
+
+func (verifNopObserver) Observe(float64) {}
+
+// C20 — results observed from concurrent goroutines: two goroutines call
+// Observe on one Metrics with different results; the Prometheus vectors are
+// replaced by no-ops (their own thread-safety is Prometheus'), every other
+// memory either goroutine writes is found automatically and checked for a data
+// race: Observe itself keeps no shared state between calls.
+//
+//verif:harness engine=gobmc unwind=16 replay=none autoshared=1 queries=cut,race bmctimeout=600
+func verif_harness_C20_observe_concurrent() {
+	// the instance is built by the real NewMetrics (only the Prometheus
+	// constructors are replaced), so whatever state it sets up is there
+	verif_stub("github.com/prometheus/client_golang/prometheus.NewHistogramVec",
+		func(o prometheus.HistogramOpts, l []string) *prometheus.HistogramVec { return &prometheus.HistogramVec{} })
+	verif_stub("github.com/prometheus/client_golang/prometheus.NewCounterVec",
+		func(o prometheus.CounterOpts, l []string) *prometheus.CounterVec { return &prometheus.CounterVec{} })
+	pm := NewMetrics()
+	verif_stub("(*github.com/prometheus/client_golang/prometheus.CounterVec).WithLabelValues",
+		func(v *prometheus.CounterVec, lvs ...string) prometheus.Counter { return verifNopCounter{} })
+	verif_stub("(*github.com/prometheus/client_golang/prometheus.HistogramVec).WithLabelValues",
+		func(v *prometheus.HistogramVec, lvs ...string) prometheus.Observer { return verifNopObserver{} })
+	results := []*vegeta.Result{
+		{Method: "GET", URL: "http://a/", Code: 200, BytesIn: 1, Latency: time.Millisecond},
+		{Method: "POST", URL: "http://b/", Code: 500, BytesOut: 2, Latency: time.Second, Error: "boom"},
+	}
+	done := make(chan struct{})
+	verif_chan_name(done, "done")
+	for w := 0; w < 2; w++ {
+		r := results[w]
+		go func() {
+			pm.Observe(r)
+			done <- struct{}{}
+		}()
+	}
+	<-done
+	<-done
 }
